@@ -204,7 +204,7 @@ def cv(args, timeout=600, input_text=None):
     return p.stdout
 
 
-def drive_trace(cmd_args, out, n_cases, timeout=600, max_crashes=4):
+def drive_trace(cmd_args, out, n_cases, timeout=600, max_crashes=4, on_crash=None):
     """Run an impl->spec driver `cv <cmd_args> --out OUT --start-case K [--append 1]` with crash isolation
     (see harness util.rs TraceWriter). Returns the number of crashes/hangs turned into records."""
     start, crashes = 0, 0
@@ -227,7 +227,8 @@ def drive_trace(cmd_args, out, n_cases, timeout=600, max_crashes=4):
         os.remove(pend)
         kind = "hang" if rc == 3 else "abort"
         with open(out, "a") as f:
-            f.write(json.dumps({"case": info["case"], "op": info["op"], "ret": {kind: rc}, "proj": {kind: True}}) + "\n")
+            rec = on_crash(info, kind, rc) if on_crash else {"case": info["case"], "op": info["op"], "ret": {kind: rc}, "proj": {kind: True}}
+            f.write(json.dumps(rec) + "\n")
         crashes += 1
         start = info["case"] + 1
         if crashes >= max_crashes or start >= n_cases:
